@@ -11,11 +11,11 @@ cd $WT && cmake -G Ninja -B _build -DCMAKE_BUILD_TYPE=RelWithDebInfo -DTesting=O
 for d in $DIRS; do
   out=$d/confirmation.txt; : > $out
   cd $WT && git checkout -q -- . && cmake --build _build -j6 >/dev/null 2>&1
-  if ROOT=$WT sh $d/demo.sh $WT >$d/.demo_unchanged.log 2>&1; then echo "demo on unchanged tree: exit 0 (pass)" >> $out; else echo "demo on unchanged tree: FAILS (exit $?)" >> $out; fi
+  if ROOT=$WT W=$WT sh $d/demo.sh $WT >$d/.demo_unchanged.log 2>&1; then echo "demo on unchanged tree: exit 0 (pass)" >> $out; else echo "demo on unchanged tree: FAILS (exit $?)" >> $out; fi
   if git apply $d/patch.diff 2>>$out; then
     if cmake --build _build -j6 >$d/.build.log 2>&1; then
       t=$(ctest --test-dir _build -j6 --timeout 900 2>&1 | grep "tests passed" ); echo "tests with change: $t" >> $out
-      if ROOT=$WT sh $d/demo.sh $WT >$d/.demo_changed.log 2>&1; then echo "demo with change: exit 0 (NOT failing)" >> $out; else echo "demo with change: exit $? (fails)" >> $out; fi
+      if ROOT=$WT W=$WT sh $d/demo.sh $WT >$d/.demo_changed.log 2>&1; then echo "demo with change: exit 0 (NOT failing)" >> $out; else echo "demo with change: exit $? (fails)" >> $out; fi
     else echo "build with change FAILED" >> $out; fi
   else echo "patch does not apply" >> $out; fi
   tail -n 3 $d/.demo_changed.log >> $out 2>/dev/null
